@@ -159,9 +159,11 @@ def hasCyclesL (adjL : List (List Nat)) (directed : Bool) : Bool :=
 
 def Graph.hasCycles (g : Graph) (directed : Bool) : Bool := hasCyclesL g.adjacencyList directed
 
-/-- `is_tree` : `not has_cycles() and n_edges == n_vertices - 1` -/
-def Graph.isTree (g : Graph) (directed : Bool) : Bool :=
-  !g.hasCycles directed && (g.edges directed).length + 1 == g.n
+/-- `is_tree` as it was coded before `fix: 88f3f30` : `not has_cycles() and n_edges == n_vertices - 1`
+(kept for the refutation-by-witness) -/
+def Graph.isTreeCoded (g : Graph) (directed : Bool) : Bool :=
+  -- (the two conjuncts are pure; the cheap one is written first so that kernel evaluation short-cuts)
+  (g.edges directed).length + 1 == g.n && !g.hasCycles directed
 
 /-! ### reference algorithms, written for obviousness -/
 
@@ -187,6 +189,11 @@ def compsGo (n : Nat) (comp : Nat → List Nat) : Nat → List Nat → Nat → N
 
 /-- number of weakly connected components -/
 def Graph.nComponents (g : Graph) : Nat := compsGo g.n g.component g.n (List.range g.n) 0
+
+/-- `is_tree` (since `fix: 88f3f30`) : `not has_cycles() and n_edges == n_vertices - 1 and
+connected_components(adjacency, directed=False) == 1` -/
+def Graph.isTree (g : Graph) (directed : Bool) : Bool :=
+  g.isTreeCoded directed && g.nComponents == 1
 
 /-- number of undirected edges counted once (pairs `i ≤ j` joined in either direction) -/
 def Graph.nUndEdges (g : Graph) : Nat :=
@@ -252,7 +259,7 @@ def Graph.bfsTree (g : Graph) (root : Nat) : List (Nat × Nat) := bfsLoop g (g.n
 
 def sameEdgeSet (a b : List (Nat × Nat)) : Bool := a.all b.contains && b.all a.contains
 
-/-- The comparison the constructor performs, `np.allclose(bfs_tree.nonzero(), adjacency.nonzero())`,
+/-- The comparison the constructor performed before `fix: f13d9a9`, `np.allclose(bfs_tree.nonzero(), adjacency.nonzero())`,
 on the two index listings *in the order the two sparse matrices list them*: arrays of shape `(2,k)`
 and `(2,m)` are broadcast (`k = m`, or one of them `1`; anything else raises a ValueError, which
 also rejects).  `k = 0, m = 1` broadcasts to an empty comparison, which is `True`. -/
@@ -262,8 +269,9 @@ def treeCompareCoded (bfs adj : List (Nat × Nat)) : Bool :=
   else if adj.length = 1 then bfs.all (· == adj.headD (0, 0))
   else false
 
-/-- `Tree.__init__` with checks; the last test takes the listing of the BFS tree as returned by
-scipy (`bfsListing`, a permutation of `g.bfsTree root` that scipy does not specify) -/
+/-- `Tree.__init__` with checks as it was coded before `fix: f13d9a9`; the last test takes the listing
+of the BFS tree as returned by scipy (`bfsListing`, a permutation of `g.bfsTree root` that scipy does
+not specify).  Kept for the refutation-by-witness. -/
 def Graph.treeCtorCoded (g : Graph) (root : Nat) (bfsListing : List (Nat × Nat)) : Except Err Unit :=
   if g.n = 0 then .error .empty
   else if !g.isolated.isEmpty then .error .isolated
@@ -272,8 +280,8 @@ def Graph.treeCtorCoded (g : Graph) (root : Nat) (bfsListing : List (Nat × Nat)
   else if !treeCompareCoded bfsListing g.edgesD then .error .bfsDiffers
   else .ok ()
 
-/-- the same constructor with the comparison the error message describes ("BFS returns a different
-tree"): equality of the two edge *sets* -/
+/-- `Tree.__init__` with checks (since `fix: f13d9a9`): the last test compares the sparsity patterns
+`(bfs_tree != 0) != (adjacency != 0)`, i.e. the two edge *sets* -/
 def Graph.treeCtor (g : Graph) (root : Nat) : Except Err Unit :=
   if g.n = 0 then .error .empty
   else if !g.isolated.isEmpty then .error .isolated
@@ -283,6 +291,11 @@ def Graph.treeCtor (g : Graph) (root : Nat) : Except Err Unit :=
   else .ok ()
 
 def Graph.treeCtorOk (g : Graph) (root : Nat) : Bool := match g.treeCtor root with | .ok _ => true | .error _ => false
+
+/-- the refusal reason, `none` = accepted -/
+def errOf {α} : Except Err α → Option Err
+  | .ok _ => none
+  | .error e => some e
 
 /-- `PointTree.from_mask` : mask, then keep the weak component of the root until one component is
 left, re-indexing the root each time; finally the constructor with checks.  Returns the graph, the
@@ -315,13 +328,17 @@ def omin : Option Nat → Option Nat → Option Nat
   | a, none => a
   | some a, some b => some (min a b)
 
+/-- the candidate distance of `v` through its in-neighbour `u` -/
+def cand (g : Graph) (d : List (Option Nat)) (v u : Nat) : Option Nat :=
+  match d.getD u none with
+  | none => none
+  | some du => if g.w u v != 0 then some (du + g.w u v) else none
+
+def relaxAt (g : Graph) (d : List (Option Nat)) (v : Nat) : Option Nat :=
+  (List.range g.n).foldl (fun acc u => omin acc (cand g d v u)) (d.getD v none)
+
 /-- one Bellman–Ford round over all edges -/
-def relax (g : Graph) (d : List (Option Nat)) : List (Option Nat) :=
-  (List.range g.n).map fun v =>
-    (List.range g.n).foldl (fun acc u =>
-      match d.getD u none with
-      | none => acc
-      | some du => if g.w u v != 0 then omin acc (some (du + g.w u v)) else acc) (d.getD v none)
+def relax (g : Graph) (d : List (Option Nat)) : List (Option Nat) := (List.range g.n).map (relaxAt g d)
 
 def bfInit (n s : Nat) : List (Option Nat) := (List.range n).map fun v => if v = s then some 0 else none
 
@@ -340,6 +357,12 @@ def Graph.routeWeight (g : Graph) : List Nat → Option Nat
   | [] => some 0
   | [_] => some 0
   | a :: b :: rest => if g.w a b != 0 then (g.routeWeight (b :: rest)).map (· + g.w a b) else none
+
+/-- every consecutive pair of the list is a stored edge -/
+def Graph.isRoute (g : Graph) : List Nat → Bool
+  | [] => true
+  | [_] => true
+  | a :: b :: rest => g.isEdge a b && g.isRoute (b :: rest)
 
 /-- the loop shared by `find_path` and `find_shortest_path`:
 `path = [end]; while i != start: i = pred[path[-1]]; path.append(i)`; builds the reversed path.
@@ -361,12 +384,16 @@ def pathFromPred (pred : List (Option Nat)) (start end_ : Nat) : Option (List Na
   | none => some []
   | some _ => walkBack pred start (pred.length + 1) [end_]
 
+/-- `distance += distances[start, v]` (`none` = an infinite / missing entry) -/
+def costStep (d : List (Option Nat)) (acc : Option Nat) (v : Nat) : Option Nat :=
+  match acc, d.getD v none with
+  | some a, some x => some (a + x)
+  | _, _ => none
+
 /-- the cost `find_shortest_path` accumulates: `distances[start, v]` for every vertex appended
 after `end`, i.e. for all of the final path but its last vertex -/
 def codedCost (d : List (Option Nat)) (path : List Nat) : Option Nat :=
-  path.dropLast.foldl (fun acc v => match acc, d.getD v none with
-    | some a, some x => some (a + x)
-    | _, _ => none) (some 0)
+  path.dropLast.foldl (costStep d) (some 0)
 
 /-- `find_shortest_path` given scipy's distance and predecessor rows of `start`:
 `(path, cost)`, cost `none` = `inf` -/
